@@ -605,7 +605,9 @@ REFUSE_OPS = ("add", "subtract", "dot", "cross", "equal", "project", "reject")
 # operations the property requires to refuse non-Cartesian operands even inside ONE system object
 NONCART_OPS = ("add", "subtract", "cross", "reject")
 COMBOS = ("cartA|cartB", "cart|cyl_child", "cart|sph_child", "cyl_child|cart", "sph_child|cart", "cyl_child|sph_child",
-    "cylA|cylB", "sphA|sphB", "cyl|cyl", "sph|sph", "cart|cyl_free", "cyl_parent|cart_child")
+    "cylA|cylB", "sphA|sphB", "cyl|cyl", "sph|sph", "cart|cyl_free", "cyl_parent|cart_child",
+    # distinct CoordinateSystem objects built (public constructor) around the SAME inner SymPy system
+    "cart|cart_same_inner", "cart|cyl_same_inner", "cyl_same_inner|cart", "cart|sph_same_inner")
 _LEN_PAIRS = [(i, j) for i in range(4) for j in range(4)]
 
 
@@ -656,6 +658,12 @@ def judge_refusal(case: dict[str, Any]) -> list[tuple[str, str]]:
             cs = CoordinateSystem(S.SPHERICAL)
         elif name == "cart_child":
             cs = coordinates_transform(made["cyl_parent"], S.CARTESIAN)
+        elif name == "cart_same_inner":
+            cs = CoordinateSystem(S.CARTESIAN, cart.coord_system)
+        elif name == "cyl_same_inner":
+            cs = CoordinateSystem(S.CYLINDRICAL, cart.coord_system)
+        elif name == "sph_same_inner":
+            cs = CoordinateSystem(S.SPHERICAL, cart.coord_system)
         else:
             raise ValueError(name)
         made[name] = cs
